@@ -38,7 +38,7 @@ def plan(tier, seed):
                 # the abort points of one project state are spread over 3 workers (each rebuilds the state itself: the subject must
                 # live at one fixed path per worker)
                 for k in range(3):
-                    cases.append({"seed": common.subseed(seed, "c05", mode, i), "mode": mode, "edit": label, "kill_samples": 2, "step_samples": 2, "slice": [k, 3]})
+                    cases.append({"seed": common.subseed(seed, "c05", mode, i), "mode": mode, "edit": label, "kill_samples": 2, "step_samples": None, "slice": [k, 3]})
         cases += [{"seed": common.subseed(seed, "c05x", mode), "mode": mode, "extract": True, "_first": True} for mode in ("dev", "build")]
         return cases
     for i in range(80):
@@ -276,7 +276,8 @@ def run_case(case):
         sl = case.get("slice") or [0, 1]
         steps = steps[sl[0]::sl[1]]
         for (n, k) in steps:
-            for kind in ("fail", "kill"):
+            # every executing step: script fails (recovery with the edit kept AND with the edit reverted), Bob killed during the script
+            for kind, revert in (("fail", False), ("fail", True), ("kill", rnd.random() < 0.5)):
                 snapshot_copy(S0, W)
                 open(os.path.join(ctl, "%s.%s.%s" % (n.replace("/", "_"), k, kind)), "w").close()
                 r1 = aborted_run()
@@ -291,7 +292,7 @@ def run_case(case):
                         counters["kill_not_delivered"] = counters.get("kill_not_delivered", 0) + 1
                 if len(viol) < 4:
                     # sometimes a second abort before the recovery
-                    if rnd.random() < 0.3 and K:
+                    if rnd.random() < 0.3 and K and not revert:
                         lock = os.path.join(W, ".bob-state.lock")
                         if os.path.exists(lock): os.unlink(lock)
                         for f in os.listdir(ctl):
@@ -299,7 +300,9 @@ def run_case(case):
                         aborted_run(dict(ALL, VERIF_KILL_AT=str(rnd.randrange(1, F + 1))))
                         counters["abort_chains"] += 1
                         ctx["abort"] += "+kill-at-save"
-                    recover_and_compare(ctx, revert=(kind == "fail" and rnd.random() < 0.6))
+                    if revert:
+                        counters["recoveries_after_revert"] = counters.get("recoveries_after_revert", 0) + 1
+                    recover_and_compare(ctx, revert=revert)
         # (c) kill at state save points
         if case["kill_samples"] is None:
             # thorough: every state save, the operation after each save, and a sample of the other fs operations
